@@ -725,7 +725,6 @@ func (w *sworld) importBlobAround(n string, blob []byte, remote string) error {
 	return nil
 }
 
-
 func hexOrDash(b []byte) string {
 	if len(b) == 0 {
 		return "-"
